@@ -38,7 +38,7 @@ def parse_items(toks):
         return toks[pos[0] - 1]
 
     def val(ty):
-        if ty in RAW:
+        if ty in RAW or ty == "b":
             return ("raw", unhx(nxt()))
         if ty in ("s", "cs"):
             return ("str", unhx(nxt()))
@@ -249,6 +249,8 @@ def small_len(r):
 
 def gen_value(r, ty, depth=0):
     """-> token list for a random value of type ty"""
+    if ty == "b":
+        return [r.choice(["00", "01"])]
     if ty in RAW:
         c = r.random()
         n = RAW[ty]
@@ -271,11 +273,27 @@ def gen_value(r, ty, depth=0):
     return [str(n), hx(rbytes(r, n * RAW[e]))]
 
 
+def min_value(ty):
+    """the smallest non-empty value of a type: one element per vector level, one character / one array element"""
+    if ty == "b":
+        return ["01"]
+    if ty in RAW:
+        return [hx(bytes(range(0x41, 0x41 + RAW[ty])))]
+    if ty in ("s", "cs"):
+        return ["61"]
+    if ty.startswith("v:"):
+        return ["1"] + min_value(ty[2:])
+    e = ty.split(":")[2]
+    return ["1", hx(bytes(range(0x41, 0x41 + RAW[e])))]
+
+
 def all_types():
     tys = list(RAW) + ["s", "cs"]
     for t in list(RAW) + ["s"]:
         tys += ["v:" + t, "v:v:" + t]
     tys += ["v:v:v:u8", "v:v:v:s"]
+    # vectors OF every element type that has its own operator<< overload (see ELEMENT_VECTORS): const char*, bool, array wrappers
+    tys += ["b", "v:b", "v:cs", "v:v:cs", "v:a:own:u8:d", "v:a:own:u32:d"]
     for w in WRAPPERS:
         for e in ARR_ELEMS:
             for how in "bd":
@@ -616,6 +634,28 @@ COVER = {
 }
 
 
+# for every OUTPUT overload of the closed operator list: the typed-value grammar must contain a vector whose ELEMENTS go through
+# that overload (the vector writer has to dispatch per element); read back through the corresponding owning type
+ELEMENT_VECTORS = {
+    "operator<<<> : typename std::enable_if<!detail::is_abstract_array<T>::value, WriteStream &>::type (WriteStream &, const T &)": ["v:u8", "v:p12", "v:b"],
+    "operator<< : WriteStream &(WriteStream &, const std::string &)": ["v:s"],
+    "operator<< : WriteStream &(WriteStream &, const char *)": ["v:cs", "v:v:cs"],
+    "operator<<<> : WriteStream &(WriteStream &, const std::vector<T> &)": ["v:v:u8", "v:v:s", "v:v:cs"],
+    "operator<<<> : WriteStream &(WriteStream &, const utility::AbstractArray<T> &)": ["v:a:own:u8:d", "v:a:own:u32:d"],
+}
+
+
+def check_element_vectors(ctx, inv, type_hist):
+    for key in inv:
+        if key.startswith("operator<<") and key not in ELEMENT_VECTORS:
+            ctx.broken.append("inventory: output overload `%s` has no vector-of-that-element type among the typed cases (ELEMENT_VECTORS)" % key)
+    for key, tys in ELEMENT_VECTORS.items():
+        for ty in tys:
+            n = type_hist.get(ty, 0)
+            if n == 0:
+                ctx.broken.append("no typed case of this run streamed a %s (elements through `%s`)" % (ty, key.split(" : ")[0]))
+
+
 def check_inventory(ctx, execs):
     """AST inventory vs COVER vs what ran; everything that does not line up is reported by name (fail closed)"""
     try:
@@ -642,6 +682,7 @@ def check_inventory(ctx, execs):
         if key not in inv and inv:
             ctx.broken.append("inventory: COVER entry `%s` matches no declaration any more (removed or signature changed)" % key)
             report[key] = {"status": "VANISHED"}
+    check_element_vectors(ctx, inv, ctx.cov.get("_type_hist", {}))
     ctx.cov["inventory"] = report
     ctx.cov["inventory_summary"] = {"declarations": len(inv), "covered": sum(1 for v in report.values() if v["status"] == "covered"),
                                     "out_of_scope": sum(1 for v in report.values() if v["status"] == "out of scope")}
@@ -806,6 +847,9 @@ def run(ctx):
         if os.path.exists(corpus):
             add("corpus", [l.strip() for l in open(corpus) if l.strip() and not l.startswith("#")])
         # every registered static type alone (empty-ish and non-empty), then random sequences
+        # first the smallest non-empty value of every type (a framing error shows on a minimal case before garbage lengths
+        # decoded from a larger one can kill the harness), then random values
+        add("typed_minimal", ["T " + " ".join([ty] + min_value(ty)) for ty in tys])
         add("typed_single", ["T " + " ".join([ty] + gen_value(r, ty)) for ty in tys for _ in range(ctx.pick(2, 6))])
         add("typed_random", [gen_T(r, tys) for _ in range(ctx.pick(1500, 15000))])
         add("typed_growth", [gen_T_growth(r) for _ in range(ctx.pick(40, 400))])
@@ -901,7 +945,9 @@ def run(ctx):
     for ty, n in hist["types"].items():
         kind = ("T:arr" if ty.startswith("a:") else "T:vec" if ty.startswith("v:") else "T:str" if ty == "s" else "T:cs" if ty == "cs" else "T:raw")
         execs[kind] = execs.get(kind, 0) + n
+    ctx.cov["_type_hist"] = dict(hist["types"])
     check_inventory(ctx, execs)
+    ctx.cov.pop("_type_hist", None)
     ctx.cov["case_mix"] = mix
     ctx.cov["histograms"] = hist
     ctx.cov["truncation_points_read_back"] = trunc_points
@@ -941,8 +987,15 @@ def run(ctx):
         what = ("harness killed by its watchdog / timeout (rc=%d): the case does not finish on the real code" % rc
                 if rc in (124, -14) else
                 "harness crashed (rc=%d) - sanitizer report / abort on the real code%s" % (rc, ": " + san.group(1) if san else ""))
+        written = None
+        if n < len(cases) and cases[n][0] == "T":      # what the real code WROTE for this case (encode-only rerun)
+            rc2, out2, _ = ctx.run_exe(exe, [], stdin=cases[n] + "\n", timeout=30, env={"C15_ENCODE_ONLY": "1"})
+            written = out2.strip("\n")[:600] if rc2 == 0 else None
+            req = oracle(cases[n])
+            if written and not req.startswith(written + " "):
+                what += "; the bytes / size prediction it wrote already differ from the required encoding"
         ctx.violation(what,
-                      {"stderr_tail": err, "case": cases[n] if n < len(cases) else None,
+                      {"stderr_tail": err, "case": cases[n] if n < len(cases) else None, "observed_written": written,
                        "required": oracle(cases[n]) if n < len(cases) else "no crash",
                        "required_also": "no crash, no sanitizer report, termination (the property demands that no memory outside "
                                         "the buffer is touched and that reading back yields the values written)",
